@@ -299,6 +299,7 @@ class Interp:
         self.builtins = self._make_builtins()
         self.fuc_seen: dict[str, dict] = {}
         self.cut_points: list = []                # statements (AST nodes) at which execution stops with CutPoint
+        self.loop_specs: dict = {}                # id(For node) -> (node, LoopSpec): loops decided by a sidecar invariant
 
     # ---------------------------------------------------------------- modules
     def module(self, name) -> ModuleInfo:
@@ -963,6 +964,9 @@ class Interp:
 
     def st_For(self, st, env):
         it = self.eval(st.iter, env)
+        spec = self.loop_specs.get(id(st))
+        if spec is not None:
+            return self._loop_with_invariant(st, it, env, spec[1])
         if hasattr(it, '_lazy_map') and hasattr(it, '_concrete_len') and not it._concrete_len():
             return self._foreach(st, it, env)
         for item in self.iterate(it):
@@ -974,6 +978,54 @@ class Interp:
             except _Continue:
                 continue
         self.exec_block(st.orelse, env)
+
+    def _loop_with_invariant(self, st, it, env, spec):
+        """INVARIANT rule for a loop with state carried between iterations, over a sequence of any length.  The sidecar supplies the
+        invariant as four callables over the frame (``spec.init / havoc / step / final``):
+          1. ``init(env)``      obligations: the invariant holds on entry (0 iterations done);
+          2. for an arbitrary k, 0 <= k < len: ``havoc(env, k)`` replaces the carried variables by an arbitrary state satisfying the
+             invariant after k iterations, the real body runs once on item k, ``step(env, k)`` states the obligations that the invariant
+             holds after k + 1 iterations; what was learnt about k is dropped afterwards;
+          3. ``final(env, n)``  replaces the carried variables by an arbitrary state satisfying the invariant after n = len iterations;
+             the code after the loop runs on that state.
+        Variables assigned in the body and not restored by ``final`` are removed (they must not be used after the loop)."""
+        seq = it._rows() if hasattr(it, '_rows') else it
+        if not hasattr(seq, 'at') or st.orelse:
+            raise Unsupported('invariant rule: loop over something without element access, or with an else clause')
+        c = core.ctx()
+        c.lib_used.add('LOOP-INVARIANT (sidecar invariant: established on entry, preserved by the real body at an arbitrary iteration, assumed after the loop)')
+        assigned, _ = _loop_names(st)
+        spec.init(env)
+        c.solver.push()
+        pc0 = len(c.pc)
+        k = c.fresh_int('iter')
+        c.assume(k >= 0)
+        c.assume(k < seq.length)
+        c.clock += 1
+        frame = core.ForeachFrame(c.clock)          # frame condition: only state created from here on (the havoc'd state) may be modified
+        c.foreach_stack.append(frame)
+        try:
+            scratch = Env(env.module, parent=env.parent, cls=env.cls, self_obj=env.self_obj)
+            scratch.vars = dict(env.vars)
+            scratch.nonlocals, scratch.globals_ = set(env.nonlocals), set(env.globals_)
+            spec.havoc(scratch, k)
+            self.assign(st.target, seq.at(k), scratch)
+            try:
+                self.exec_block(st.body, scratch)
+            except _Continue:
+                pass
+            except _Break:
+                raise Unsupported('break in a loop decided by an invariant')
+        finally:
+            c.foreach_stack.pop()
+        if frame.collected:
+            raise Unsupported('a loop decided by an invariant appends to a list the invariant does not describe')
+        spec.step(scratch, k)
+        c.solver.pop()
+        del c.pc[pc0:]
+        for name in assigned:
+            env.vars.pop(name, None)
+        spec.final(env, seq.length)
 
     def _foreach(self, st, it, env):
         """FOREACH rule for a loop over a sequence of symbolic length whose iterations are independent and only emit
@@ -1228,7 +1280,7 @@ class Interp:
         return core.TList(self._elts(e.elts, env))
 
     def ex_Set(self, e, env):
-        return set(self._elts(e.elts, env))
+        return core.TSet(self._elts(e.elts, env))
 
     def _elts(self, elts, env):
         out = []
@@ -1589,7 +1641,7 @@ class Interp:
     def ex_SetComp(self, e, env):
         out = set()
         self._comp(e.generators, env, lambda ce: out.add(self.eval(e.elt, ce)))
-        return out
+        return core.TSet(out)
 
     def ex_DictComp(self, e, env):
         out = {}
